@@ -114,6 +114,10 @@ static TOTAL_WEAK_FAILS: AtomicU64 = AtomicU64::new(0);
 struct Tl {
   active: bool,
   auto_checked: bool,
+  /// library-spawned thread (janitor, notifier, loader task, writer): armed on its first hook point
+  auto: bool,
+  /// step at which an auto thread draws its next set of change points
+  rearm_at: u64,
   rng: Rng,
   n: u64,
   change_at: [u64; 4],
@@ -125,7 +129,7 @@ struct Tl {
 
 thread_local! {
   static TL: RefCell<Tl> = RefCell::new(Tl {
-    active: false, auto_checked: false, rng: Rng::new(1), n: 0, change_at: [u64::MAX; 4],
+    active: false, auto_checked: false, auto: false, rearm_at: u64::MAX, rng: Rng::new(1), n: 0, change_at: [u64::MAX; 4],
     counts: [0; KINDS], delays: 0, stalls: 0, weak_fails: 0,
   });
 }
@@ -286,6 +290,16 @@ fn hook(kind: Kind) {
           let addr = &*t as *const Tl as u64;
           let seed = AUTO_SEED.load(Ordering::Relaxed) ^ crate::rng::splitmix(addr);
           arm(&mut t, seed);
+          // Library threads are either very short (one loader run: a few dozen steps) or very long (janitor,
+          // notifier, writer): their change points are drawn from a short horizon and drawn again every
+          // couple of horizons, so both kinds get stalled at their hand-over steps.
+          t.auto = true;
+          let h = (HORIZON.load(Ordering::Relaxed) as u64).min(48).max(8);
+          let cps = CHANGE_POINTS.load(Ordering::Relaxed).min(4) as usize;
+          for i in 0..cps {
+            t.change_at[i] = t.rng.below(h);
+          }
+          t.rearm_at = 2 * h;
           // auto threads are long-lived: count continuously, flush periodically below
         }
       }
@@ -298,6 +312,14 @@ fn hook(kind: Kind) {
     t.n += 1;
     if n & 0xfff == 0xfff {
       flush(&mut t);
+    }
+    if t.auto && n >= t.rearm_at {
+      let h = (HORIZON.load(Ordering::Relaxed) as u64).min(256).max(8);
+      let cps = CHANGE_POINTS.load(Ordering::Relaxed).min(4) as usize;
+      for i in 0..4 {
+        t.change_at[i] = if i < cps { n + 1 + t.rng.below(h) } else { u64::MAX };
+      }
+      t.rearm_at = n + 2 * h;
     }
     if t.change_at.contains(&n) {
       let lo = STALL_MIN.load(Ordering::Relaxed) as u64;
